@@ -4,6 +4,7 @@ results (C03/C04 theorems hold for every package the checkers accept, whatever o
 Tie: every scenario is run once unperturbed and under K seeded schedules of the PMPI layer (wildcard receives
 resolved in seeded order after a quiet period, seeded delays before sends and collectives) with a watchdog;
 results must not depend on the schedule; package dumps are compared up to the order of the send-side messages."""
+from fractions import Fraction
 import os, re
 import framework as fw, buildlib, commgen, nums
 import C02par
@@ -84,7 +85,7 @@ def unstable_lines(a, b):
     return out
 
 
-def run_scenario(ctx, name, driver, lines, P, K, timeout=120):
+def run_scenario(ctx, name, driver, lines, P, K, timeout=120, late_us=0):
     shim = buildlib.build_shim()
     exe = buildlib.build_driver(driver)
     cf = fw.write_cases(ctx, "c05_%s_%d.cases" % (name, P), lines)
@@ -99,6 +100,7 @@ def run_scenario(ctx, name, driver, lines, P, K, timeout=120):
     for k in range(K):
         seed = ctx.seed * 1000 + k + 1
         env = {"LD_PRELOAD": shim, "VERIF_SCHED_SEED": str(seed)}
+        if late_us: env["VERIF_SCHED_LATE_US"] = str(late_us)
         rc, out, err = buildlib.run_driver(exe, cf, nprocs=P, timeout=timeout, extra_env=env)
         ctx.evaluations += 1
         ctx.nontrivial.add("%s/P%d/seed%d" % (name, P, seed))
@@ -110,6 +112,12 @@ def run_scenario(ctx, name, driver, lines, P, K, timeout=120):
                        case=lines[0], extra=dict(schedule_seed=seed)); continue
         got = fw.parse_out(out)
         ctx.compared += 1
+        for cid, kv in got.items():
+            for key, toks in kv:
+                if key == "BIG" and any(":" in x and not x.startswith("@") and not x.split(":")[1].split("@")[0] == "0" for x in toks):
+                    line = next((l for l in lines if l.split()[0] == cid), lines[0])
+                    ctx.signal("O", "%s:wrong_product" % name, "product differs from the exact result under schedule seed %d (late receivers up to %d us): %s"
+                               % (seed, late_us, " ".join(toks)[:300]), case=line, extra=dict(schedule_seed=seed, late_us=late_us))
         d = outputs_equal(base, got, unstable)
         if d:
             cid, key, why = d[0]
@@ -200,6 +208,32 @@ def run(ctx):
             pc.append(" ".join(str(x) for x in [c["cid"], "pspmv", kind, rng.choice(["coo", "csr", "csc"]), int(tap), ppn]
                                + C02par.parlit_tokens(c, True) + vt))
         run_scenario(ctx, "parmat", "drv_parmat", pc, P, K)
+    # repartitioning (any-source probes on both sides): rows arriving from several ranks in any order
+    import C20
+    for P in ctx.scale([3, 4], [2, 3, 4, 6]):
+        rp = []
+        for k in range(ctx.scale(10, 30)):
+            n = rng.randint(2 * P, 6 * P + 6)
+            first = C20.rand_blocks(rng, n, P)
+            trip, _ = C20.rand_matrix(rng, n, [Fraction(v) for v in (1, 2, 3, 4, 5, 6, 7)])
+            tk, tm = C20.target_map(rng, n, P, first)
+            if k % 2 == 0:      # interleaved targets: every rank receives rows from every other rank
+                off = rng.randrange(P); tm = [(g + off) % P for g in range(n)]
+            x = C20.rand_vec(rng, n); vs = C20.views_of(n, first, trip)
+            toks = ["r%d_%d" % (P, k), "repart"] + C20.parlit_toks(n, first, trip) + [str(n)] + [str(t) for t in tm] + [str(n)] + \
+                   [nums.tok_num(v) for v in x] + ["VIEWS", str(P)] + sum((C20.view_toks(v, n) for v in vs), [])
+            rp.append(" ".join(toks))
+        run_scenario(ctx, "repart", "drv_repart", rp, P, K)
+    # messages above the eager limit, one-directional chains, back-to-back exchanges on the same package, late receivers:
+    # a send buffer reused before its send completed shows up as a mixed vector
+    for P in ctx.scale([3], [2, 3, 4, 6]):
+        big = []
+        for k in range(ctx.scale(3, 8)):
+            ops = [rng.choice("FT") for _ in range(rng.randint(3, 6))]
+            if k == 0: ops = ["T", "T", "T", "F", "F"]
+            tap = int(rng.random() < 0.3); ppn = rng.choice([d for d in range(1, P + 1) if P % d == 0]) if tap else 4
+            big.append(" ".join(str(x) for x in ["g%d_%d" % (P, k), "pbig", rng.choice([1500, 2048, 5000]), tap, ppn, len(ops)] + ops))
+        run_scenario(ctx, "bigmsg", "drv_parmat", big, P, max(3, K // 2), late_us=30000)
     for P in ctx.scale([3, 4], [2, 3, 4, 5, 6, 8]):
         trace_conformance(ctx, P, rng.choice([2, 3]), [0] + [ctx.seed * 77 + k + 1 for k in range(ctx.scale(2, 10))])
     # corpus scenarios contributed by the AMG families: corpus/C05/<driver>.<P>.cases
